@@ -485,6 +485,31 @@ V("calculate: one covariant index too many in the result type", "C05", BASE, "  
   "        return Tensor(result, covariant=range(n_cov + 1), tensor_rank=result.ndim - n_free, copy=False)", "E14", "TensorDiagram.calculate")
 V("calculate: collection axes aligned from the left", "C05", BASE, "                free_ind = list(reversed(range(node.free_indices)))", "                free_ind = list(range(node.free_indices))", "E14", "TensorDiagram.calculate")
 V("calculate: result offsets of the unused contravariant indices dropped", "C05", BASE, "            result_indices[2].extend(offset + x for x in ind[1])", "            result_indices[2].extend(x for x in ind[1])", "E14", "TensorDiagram.calculate")
+PAIR_CALL_OLD = "        # Build the list of indices for einsum\n        indices = list(range(self._index_count))\n"
+PAIR_CALL_NEW = ("        if len(self._nodes) == 2 and all(node.free_indices == 0 for node in self._nodes):\n"
+                 "            if all(source_index != target_index for source_index, target_index, _, _ in self._contraction_list):\n"
+                 "                return self._calculate_pair()\n\n" + PAIR_CALL_OLD)
+PAIR_DEF_OLD = "    def copy(self) -> TensorDiagram:\n        result = TensorDiagram()\n"
+
+
+def _pair_def(perm: str) -> str:
+    return ("    def _calculate_pair(self) -> Tensor:\n"
+            "        a, b = self._nodes\n"
+            "        axes_a = [i if source_index == 0 else j for source_index, _, i, j in self._contraction_list]\n"
+            "        axes_b = [j if source_index == 0 else i for source_index, _, i, j in self._contraction_list]\n"
+            "        result = np.tensordot(a.array, b.array, axes=(axes_a, axes_b))\n"
+            "        remaining = [(0, x) for x in range(a.rank) if x not in axes_a]\n"
+            "        remaining += [(1, x) for x in range(b.rank) if x not in axes_b]\n"
+            "        (cov_a, con_a), (cov_b, con_b) = self._unused_indices\n"
+            "        order = [(0, x) for x in cov_a] + [(1, x) for x in cov_b] + [(0, x) for x in con_a] + [(1, x) for x in con_b]\n"
+            f"        result = np.transpose(result, axes={perm})\n"
+            "        return Tensor(result, covariant=range(len(cov_a) + len(cov_b)), copy=False)\n\n" + PAIR_DEF_OLD)
+
+
+V("calculate: tensordot fast path for two single tensors that applies the inverse of the result permutation", "C05", BASE, PAIR_CALL_OLD, PAIR_CALL_NEW, "E14",
+  "TensorDiagram.calculate", extra=[(BASE, PAIR_DEF_OLD, _pair_def("[order.index(axis) for axis in remaining]"))])
+V("twin: tensordot fast path for two single tensors with the right result permutation", "C05", BASE, PAIR_CALL_OLD, PAIR_CALL_NEW, "silent",
+  extra=[(BASE, PAIR_DEF_OLD, _pair_def("[remaining.index(axis) for axis in order]"))])
 V("twin: add_edge removes the first unused index with del", "C05", BASE, "        i = free_source.pop(0)\n        j = free_target.pop(0)\n", "        i = free_source[0]\n        del free_source[0]\n        j = free_target[0]\n        del free_target[0]\n", "silent")
 V("twin: calculate labels a contracted pair with the larger subscript", "C05", BASE, "            indices[max(i, j)] = min(i, j)", "            indices[min(i, j)] = max(i, j)", "missed")
 V("D24 regression: join/meet put the caller's objects themselves into the diagram", "C02", POINT, "    args = tuple(o.copy() for o in args)\n", "", "E14.id", "_join_meet_duality")
@@ -519,6 +544,19 @@ V("D7 regression: triple root with the wrong sign", "C20", MATH, "        x = -n
 V("quadratic branch: discriminant with the wrong factor", "C20", MATH, "        D = c**2 - 4 * b * d", "        D = c**2 - 2 * b * d", "E12.roots", "roots")
 V("quadratic branch: denominator without the factor 2", "C20", MATH, "        x1 = (-c + D) / (2 * b)", "        x1 = (-c + D) / b", "E12.roots", "roots")
 V("linear branch: sign of the root", "C20", MATH, "        return np.array([-d / c])", "        return np.array([d / c])", "E12.roots", "roots")
+QUAD_OLD = "        D = c**2 - 4 * b * d\n        D = csqrt(D)\n        x1 = (-c + D) / (2 * b)\n        x2 = (-c - D) / (2 * b)\n"
+
+
+def _stable_quadratic(guarded: bool) -> str:
+    dq = "d / q if q != 0 else 0 * q" if guarded else "d / q"
+    return ("        D = csqrt(c**2 - 4 * b * d)\n        if c >= 0:\n            q = -(c + D) / 2\n"
+            f"            x1 = {dq}\n            x2 = q / b\n        else:\n            q = -(c - D) / 2\n            x1 = q / b\n            x2 = {dq}\n")
+
+
+V("quadratic branch in the cancellation-free form d/q, q/b: 0/0 for the double root 0 (c = d = 0)", "C20", MATH, QUAD_OLD, _stable_quadratic(False), "E12.roots.div", "roots")
+V("twin: the cancellation-free quadratic form with the case q = 0 handled", "C20", MATH, QUAD_OLD, _stable_quadratic(True), "silent")
+V("triple root read from -3d/c: 0/0 for the triple root 0", "C20", MATH, "        x = -np.cbrt(d / a)", "        x = -3 * d / c", "E12.roots.div", "roots")
+V("twin: triple root read from -b/(3a)", "C20", MATH, "        x = -np.cbrt(d / a)", "        x = -b / (3 * a)", "silent")
 V("twin: quadratic roots written with the quotient distributed", "C20", MATH, "        x1 = (-c + D) / (2 * b)", "        x1 = -c / (2 * b) + D / (2 * b)", "silent")
 V("twin: triple root from the sum of the roots", "C20", MATH, "        x = -np.cbrt(d / a)", "        x = -b / (3 * a)", "silent")
 
@@ -555,7 +593,76 @@ for _p in ("C06", "C07"):
     V(f"generic action: the inverse is used for the covariant indices ({_p})", _p, BASE, "        edges: list[tuple[Tensor, Tensor]] = [(self, transformation.copy()) for _ in range(ts[0])]",
       "        edges: list[tuple[Tensor, Tensor]] = [(self, transformation.inverse().copy()) for _ in range(ts[0])]", "E17", "Tensor.__apply__")
     V(f"generic action: one contravariant index is left untransformed ({_p})", _p, BASE, "            edges.extend((inv.copy(), self) for _ in range(ts[1]))", "            edges.extend((inv.copy(), self) for _ in range(ts[1] - 1))", "E17", "Tensor.__apply__")
+AP_OLD = "        ts = self.tensor_shape\n        edges: list[tuple[Tensor, Tensor]] = [(self, transformation.copy()) for _ in range(ts[0])]\n"
+AP_IMPORT = (BASE, "    is_numerical_scalar,\n    posify_index,", "    is_numerical_scalar,\n    matmul,\n    posify_index,")
+
+
+def _ap_fast(correct: bool) -> str:
+    if correct:
+        body = ("            if ts[1] > 0:\n                m = transformation.inverse().array\n"
+                "                result_fast.array = matmul(matmul(m, self.array, transpose_a=True), m)\n"
+                "            else:\n                m = transformation.array\n"
+                "                result_fast.array = matmul(matmul(m, self.array), m, transpose_b=True)\n")
+    else:
+        body = ("            m = transformation.inverse().array if ts[1] > 0 else transformation.array\n"
+                "            result_fast.array = matmul(matmul(m, self.array, transpose_a=True), m)\n")
+    return ("        ts = self.tensor_shape\n        if ts in ((0, 2), (2, 0)):\n            result_fast = self.copy()\n" + body
+            + "            return result_fast\n        edges: list[tuple[Tensor, Tensor]] = [(self, transformation.copy()) for _ in range(ts[0])]\n")
+
+
+for _p in ("C06", "C07"):
+    V(f"generic action: matrix-product fast path for rank 2 that uses M^T A M for two covariant indices too ({_p})", _p, BASE, AP_OLD, _ap_fast(False), "E17", "Tensor.__apply__",
+      extra=[AP_IMPORT])
+    V(f"twin: matrix-product fast path for rank 2 with M A M^T for covariant and M^-T A M^-1 for contravariant indices ({_p})", _p, BASE, AP_OLD, _ap_fast(True), "silent",
+      extra=[AP_IMPORT])
 V("generic action: the inverse contracted from the other side", "C07", BASE, "            edges.extend((inv.copy(), self) for _ in range(ts[1]))", "            edges.extend((self, inv.copy()) for _ in range(ts[1]))", "E17", "Tensor.__apply__")
 V("twin: generic action with the edge list built in one expression", "C07", BASE,
   "        edges: list[tuple[Tensor, Tensor]] = [(self, transformation.copy()) for _ in range(ts[0])]\n        if ts[1] > 0:\n            inv = transformation.inverse()\n            edges.extend((inv.copy(), self) for _ in range(ts[1]))",
   "        inv = transformation.inverse()\n        edges: list[tuple[Tensor, Tensor]] = [(self, transformation.copy()) for _ in range(ts[0])] + [(inv.copy(), self) for _ in range(ts[1])]", "silent")
+
+
+# ------------------------------------------------------------------------------------------------ sibling paths of one try statement (E10.F6; found by seeding, R9_C18)
+F6_OLD = '        if isinstance(other, SegmentTensor):\n            try:\n                result = self._plane.meet(other._line)\n            except LinearDependenceError as e:\n                if isinstance(other, SegmentCollection):\n                    other = cast(SegmentTensor, other[~e.dependent_values])\n                result = cast(PlaneTensor, self._plane[~e.dependent_values]).meet(other._line)\n                return list(\n                    result[\n                        PolygonCollection.from_tensor(self[~e.dependent_values]).contains(result)\n                        & other.contains(result)\n                    ]\n                )\n            else:\n                return list(result[self.contains(result) & other.contains(result)])\n\n        try:\n            result = self._plane.meet(other)\n        except LinearDependenceError as e:\n            if other.free_indices > 0:\n                other = other[~e.dependent_values]\n            result = cast(PlaneTensor, self._plane[~e.dependent_values]).meet(other)\n            return list(result[PolygonCollection.from_tensor(self[~e.dependent_values]).contains(result)])\n        else:\n            return list(result[self.contains(result)])'
+F6_NEW = '        # a segment is intersected via its supporting line, the hits are restricted to the segment afterwards\n        segment = other if isinstance(other, SegmentTensor) else None\n        line = other if segment is None else segment._line\n\n        try:\n            result = self._plane.meet(line)\n            ind = self.contains(result)\n        except LinearDependenceError as e:\n            # the line lies in some of the planes, only the remaining polygons can be hit in a single point\n            independent = ~e.dependent_values\n            if isinstance(segment, SegmentCollection):\n                segment = cast(SegmentTensor, segment[independent])\n                line = segment._line\n            elif line.free_indices > 0:\n                line = cast(LineTensor, line[independent])\n            result = cast(PlaneTensor, self._plane[independent]).meet(line)\n            ind = PolygonCollection.from_tensor(self[independent]).contains(result)\n        else:\n            if segment is not None:\n                ind &= segment.contains(result)\n\n        return list(result[ind])'
+F6_TWIN = '        # a segment is intersected via its supporting line, the hits are restricted to the segment afterwards\n        segment = other if isinstance(other, SegmentTensor) else None\n        line = other if segment is None else segment._line\n\n        try:\n            result = self._plane.meet(line)\n            ind = self.contains(result)\n        except LinearDependenceError as e:\n            # the line lies in some of the planes, only the remaining polygons can be hit in a single point\n            independent = ~e.dependent_values\n            if isinstance(segment, SegmentCollection):\n                segment = cast(SegmentTensor, segment[independent])\n                line = segment._line\n            elif line.free_indices > 0:\n                line = cast(LineTensor, line[independent])\n            result = cast(PlaneTensor, self._plane[independent]).meet(line)\n            ind = PolygonCollection.from_tensor(self[independent]).contains(result)\n\n        if segment is not None:\n            ind &= segment.contains(result)\n\n        return list(result[ind])'
+V("segment and line operands merged, the segment restriction only on the path without an exception", "C18", SHAPES, F6_OLD, F6_NEW, "E10.F6", "PolygonTensor.intersect", quick=True)
+V("twin: segment and line operands merged, the segment restriction after the try statement", "C18", SHAPES, F6_OLD, F6_TWIN, "silent")
+
+
+# ------------------------------------------------------------------------------------------------ constructors as closed forms (E18)
+V("affine_transform stores the offset into the last row", "C08", TRANS, "    result[:-1, -1] = offset\n", "    result[-1, :-1] = offset\n", "E18.affine", "affine_transform", quick=True)
+V("affine_transform stores the matrix shifted by one row and column", "C08", TRANS, "        result[:-1, :-1] = matrix\n", "        result[1:, 1:] = matrix\n", "missed")
+V("affine_transform forgets the matrix", "C08", TRANS, "    if matrix is not None:\n        result[:-1, :-1] = matrix\n\n", "", "E18.affine", "affine_transform")
+V("twin: affine_transform with the blocks addressed through n - 1", "C08", TRANS, "    if matrix is not None:\n        result[:-1, :-1] = matrix\n\n    result[:-1, -1] = offset\n",
+  "    if matrix is not None:\n        result[: n - 1, : n - 1] = matrix\n\n    result[: n - 1, n - 1] = offset\n", "silent")
+V("translation by the unnormalised homogeneous coordinates", "C08", TRANS, "    return affine_transform(offset=offset.normalized_array[:-1])", "    return affine_transform(offset=offset.array[:-1])",
+  "E18.trans", "translation")
+V("translation in the opposite direction", "C08", TRANS, "    return affine_transform(offset=offset.normalized_array[:-1])", "    return affine_transform(offset=-offset.normalized_array[:-1])",
+  "E18.trans", "translation")
+V("twin: translation with the offset in a local", "C08", TRANS, "    return affine_transform(offset=offset.normalized_array[:-1])",
+  "    shift = offset.normalized_array[:-1]\n    return affine_transform(None, shift)", "silent")
+V("rotation of the plane turns clockwise", "C08", TRANS, "[[np.cos(angle), -np.sin(angle)], [np.sin(angle), np.cos(angle)]]", "[[np.cos(angle), np.sin(angle)], [-np.sin(angle), np.cos(angle)]]",
+  "E18.rot", "rotation")
+V("rotation of the plane with sine and cosine exchanged", "C08", TRANS, "[[np.cos(angle), -np.sin(angle)], [np.sin(angle), np.cos(angle)]]", "[[np.sin(angle), -np.cos(angle)], [np.cos(angle), np.sin(angle)]]",
+  "E18.rot", "rotation")
+V("twin: rotation of the plane with cos and sin in locals", "C08", TRANS, "        return affine_transform([[np.cos(angle), -np.sin(angle)], [np.sin(angle), np.cos(angle)]])",
+  "        c, s = np.cos(angle), np.sin(angle)\n        return affine_transform([[c, -s], [s, c]])", "silent")
+V("Rodrigues formula with (1 + cos) on the axis term", "C08", TRANS, "+ (1 - np.cos(angle)) * v", "+ (1 + np.cos(angle)) * v", "E18.rot", "rotation")
+V("Rodrigues formula with the identity term scaled by sin", "C08", TRANS, "    result = np.cos(angle) * np.eye(dimension) + np.sin(angle) * u", "    result = np.sin(angle) * np.eye(dimension) + np.cos(angle) * u", "E18.rot", "rotation")
+V("Rodrigues formula with an axis that is not normalised", "C08", TRANS, "    a = a / np.linalg.norm(a)\n", "", "E18.rot", "rotation")
+V("twin: Rodrigues formula with the terms in another order", "C08", TRANS, "    result = np.cos(angle) * np.eye(dimension) + np.sin(angle) * u + (1 - np.cos(angle)) * v",
+  "    c = np.cos(angle)\n    result = v + c * (np.eye(dimension) - v) + u * np.sin(angle)", "silent")
+V("Householder matrix without the factor 2", "C08", TRANS, "np.eye(axis.dim) - 2 * outer(v, v.conj())", "np.eye(axis.dim) - outer(v, v.conj())", "E18.refl", "reflection")
+V("Householder matrix from a normal that is not normalised", "C08", TRANS, "    v = v / np.linalg.norm(v)  # type: ignore[operator]\n", "", "E18.refl", "reflection")
+V("twin: Householder matrix with the factor inside the outer product", "C08", TRANS, "np.eye(axis.dim) - 2 * outer(v, v.conj())", "np.eye(axis.dim) - outer(v, v.conj()) * 2", "silent")
+FP_OLD = "        t1 = m1.dot(np.diag(d1))\n        t2 = m2.dot(np.diag(d2))\n\n        return cls(t2.dot(np.linalg.inv(t1)))"
+V("from_points with the two scalings merged the wrong way round (d1/d2)", "C08", TRANS, FP_OLD, "        return cls((m2 * (d1 / d2)).dot(np.linalg.inv(m1)))", "E18.frame", "Transformation.from_points", quick=True)
+V("twin: from_points with the two scalings merged into d2/d1", "C08", TRANS, FP_OLD, "        return cls((m2 * (d2 / d1)).dot(np.linalg.inv(m1)))", "silent")
+V("twin: from_points through solve on the transposes", "C08", TRANS, "        return cls(t2.dot(np.linalg.inv(t1)))", "        return cls(np.linalg.solve(t1.T, t2.T).T)", "silent")
+V("from_points maps the targets to the sources", "C08", TRANS, "        return cls(t2.dot(np.linalg.inv(t1)))", "        return cls(t1.dot(np.linalg.inv(t2)))", "E18.frame", "Transformation.from_points")
+V("from_points multiplies by the inverse on the wrong side", "C08", TRANS, "        return cls(t2.dot(np.linalg.inv(t1)))", "        return cls(np.linalg.inv(t1).dot(t2))", "E18.frame", "Transformation.from_points")
+V("from_points solves the target scale from the last source", "C08", TRANS, "        d2 = np.linalg.solve(m2, b[-1])", "        d2 = np.linalg.solve(m2, a[-1])", "E18.frame", "Transformation.from_points")
+V("from_points stacks the points as rows", "C08", TRANS, "        m1 = np.column_stack(a[:-1])\n", "        m1 = np.array(a[:-1])\n", "E18.frame", "Transformation.from_points")
+V("from_points without the scale of the sources", "C08", TRANS, "        t1 = m1.dot(np.diag(d1))\n", "        t1 = m1\n", "E18.frame", "Transformation.from_points")
+V("from_points_and_conics pairs the third points the wrong way round", "C08", TRANS, "        return cls.from_points((a1, a2), (b1, b2), (c1, c2), (d1, d2))", "        return cls.from_points((a1, a2), (b1, b2), (c2, c1), (d1, d2))",
+  "E18.pairs", "Transformation.from_points_and_conics")
